@@ -1,4 +1,4 @@
-SPECIFICATION SpecLegal
+SPECIFICATION Spec
 CONSTANT Cfg <- MCCfg2
 CONSTANT Solutions <- AllSolutions
 CONSTANT MaxEmpty = 3
